@@ -104,6 +104,12 @@ class Check:
 def _init_worker():
     import signal
     signal.signal(signal.SIGINT, signal.SIG_IGN)
+    # a forked worker must not share the parent's E0 pipe
+    try:
+        import e0
+        e0._shared[0] = None
+    except Exception:
+        pass
 
 
 def _guard(args):
